@@ -22,10 +22,10 @@ THEOREMS = [
 ]
 RULE = (
     "behaviours: every cell of {200,202,204,301,404,500} x {application/json, text/event-stream, text/plain, absent} x "
-    "{response, error, batch array, notifications+server request+response, wrong id, empty, truncated, non-JSON, non-UTF-8 (leading / "
+    "{response, error (own / foreign / null id), batch array, notifications+server request+response, result with a foreign id, JSON object that is no JSON-RPC message, empty, truncated, non-JSON, non-UTF-8 (leading / "
     "inside a string), JSON that is no message, body without message} x {int id, string id, id 0, notification} plus mislabelled bodies, "
     "4 transport exceptions x 7 id shapes; SSE encodings: {no event field, 'event: message', 'event:message'} x data space x {LF, CRLF, "
-    "mixed} x 4 comment/id/retry placements x 3 stream endings x multi-line data x 2 contents; every pair over a 22-letter behaviour "
+    "mixed} x 4 comment/id/retry placements x 3 stream endings x multi-line data x 2 contents; every pair over a 29-letter behaviour "
     "alphabet (session header present/changed/absent/on error status) (quick) + sampled words of length<=4 (thorough: 30000) + seeded "
     "random contents/encodings; real http_client() with MockTransport vs HttpDecide.run; python SSE renderer vs Sse.renderText; "
     "non-trivial = distinct case with at least one request"
@@ -40,6 +40,10 @@ ASSUMPTIONS = [
     "a session id is 'issued' by a response with a non-error status; ids on error responses may or may not be adopted",
     "a body that is a well-formed response to a different id is passed through; no terminal for the request's own id is demanded then",
     "result / error members of server messages are JSON objects (the library's message class accepts nothing else)",
+    "on an error status exactly one terminal with the request's id is demanded whatever the body says; the server's own messages in "
+    "the error body may additionally be delivered (not counted as invented), a server error echoing the request's id counts as that terminal",
+    "a 2xx JSON/SSE body holding a JSON-RPC error with a null or foreign id is a well-formed body: it is passed through and no terminal for "
+    "the request's own id is demanded (at most one); likewise a 2xx JSON object without JSON-RPC members (the library's message class accepts it)",
     "3xx answers carry no Location header (httpx would follow it; the answer at the target is what counts)",
 ]
 
@@ -87,6 +91,8 @@ def oracle(case, obs):
     srv = [[G.classify(m) for m in e["srv"]] for e in exps]
     srv_keys = [set(canon(m) for m in s) for s in srv]
     all_srv = set().union(*srv_keys) if srv_keys else set()
+    for e in exps:  # the server's own messages in an error-status body: delivering them too is no invention
+        all_srv |= set(canon(G.classify(m)) for m in e.get("may", []))
     req_ids = [canon(i) for i in rid if i is not None]
     mangled_ids = set()
     for r, e in zip(reqs, exps):
@@ -224,7 +230,7 @@ class Sequences(_Base):
 
     def cases(self, ctx, budget):
         out = G.pairs()
-        ctx.exhaustive_parts.append("sequences: every ordered pair over the 22-letter behaviour alphabet")
+        ctx.exhaustive_parts.append("sequences: every ordered pair over the 29-letter behaviour alphabet")
         rng = ctx.sub_rng("c11-seq", budget)
         n = {"quick": 600, "thorough": 30000, "search": 8000}[budget]
         out += G.sampled_sequences(rng, n, maxlen=4)
